@@ -109,7 +109,7 @@ def typestate(chk, P, cls):
     short = cls.split("::")[-1]
     # T1
     eos = [(b, i, r) for b, i, r in f.ret_events() if ret_label(r) == "EndOfSimulation"]
-    chk.judge(len(eos) >= 1, "TYPESTATE", short + ":T1:has-EndOfSimulation-return", f.loc, "stepTo can return EndOfSimulation")
+    chk.shape(len(eos) >= 1, "TYPESTATE", short + ":T1:has-EndOfSimulation-return", f.loc, "stepTo can return EndOfSimulation")
     for n, (b, i, r) in enumerate(eos):
         site = "%s:%d" % (f.file, r["line"])
         sets = [(bb, ii) for bb, ii, e in f.events(lambda e: status_of(e) == FINAL)]
@@ -157,7 +157,7 @@ def typestate(chk, P, cls):
                   "with status FinalTimeHasBeenReturned every path must throw before any return or integration step", p1 or p2)
     # T2b: the refusal test comes before any step on every path from entry
     steps = [(b, i, e) for b, i, e in f.events(is_step)]
-    chk.judge(len(steps) >= 1, "TYPESTATE", short + ":has-step-call", f.loc, "stepTo advances through takeOneStep / cpodes->step")
+    chk.shape(len(steps) >= 1, "TYPESTATE", short + ":has-step-call", f.loc, "stepTo advances through takeOneStep / cpodes->step")
     for b, i, e in steps:
         def tested(q):
             return q["k"] == "call" and q.get("fn", "").endswith("::getStepCommunicationStatus")
@@ -198,7 +198,7 @@ def reachdef(chk, P):
     sched = f.d["params"][1][0]
     rep = f.d["params"][0][0]
     calls = list(f.calls(AIR + "::takeOneStep"))
-    chk.judge(len(calls) == 1, "REACHDEF", "Abstract:one-takeOneStep", f.loc, "one takeOneStep call site")
+    chk.shape(len(calls) == 1, "REACHDEF", "Abstract:one-takeOneStep", f.loc, "one takeOneStep call site")
     for b, i, e in calls:
         a = call_args(e)
         tv = var_of(a[0])
@@ -228,7 +228,7 @@ def reachdef(chk, P):
     sched = g.d["params"][1][0]
     rep = g.d["params"][0][0]
     steps = [(b, i, e) for b, i, e in g.calls() if e.get("fn", "").endswith("CPodes::step")]
-    chk.judge(len(steps) == 1, "REACHDEF", "CPodes:one-step-call", g.loc, "one cpodes->step call site")
+    chk.shape(len(steps) == 1, "REACHDEF", "CPodes:one-step-call", g.loc, "one cpodes->step call site")
     for b, i, e in steps:
         a = call_args(e)
         tv = var_of(a[0])
@@ -251,7 +251,7 @@ def window(chk, P):
     f = P.fn(AIR + "::takeOneStep")
     trep = f.d["params"][1][0]
     sites = [(b, i, e) for b, i, e in f.calls(IR + "::setTriggeredEvents")]
-    chk.judge(len(sites) == 2, "WINDOW", "two-report-sites", f.loc, "early exit and post-bisection report sites (found %d)" % len(sites))
+    chk.shape(len(sites) == 2, "WINDOW", "two-report-sites", f.loc, "early exit and post-bisection report sites (found %d)" % len(sites))
     def mentions(c, lo, hi):
         return bool(sx_find(c, lambda y: y[0] == "var" and y[1] == trep)) and (bool(sx_find(c, lambda y: y[0] == "var" and y[1] == lo)) or bool(sx_find(c, lambda y: y[0] == "var" and y[1] == hi)))
     for n, (b, i, e) in enumerate(sites):
